@@ -228,6 +228,22 @@ def _ns_members():
     M.append(("AUTOTMPL", ("attr", lambda: Option.auto("{B}-t", doc="templated default")), lambda q: Option(q, "{B}-t")))
     M.append(("AUTODOM", ("attr", lambda: Option.auto(1, domain=[1, 2])), lambda q: Option(q, 1, domain=[1, 2])))
     M.append(("EVAL", ("attr", lambda: Option("B", 4) >> f), lambda q: Option(q, Option("B", 4) >> f)))
+    # a domain-restricted automatic member that is piped
+    M.append(("AUTODOMF", ("attr", lambda: Option.auto(1, domain=[1, 2]) >> f), lambda q: Option(q, 1, domain=[1, 2]) >> f))
+    # one automatic option object piped twice, into two different members
+    shared = {}
+
+    def base():
+        if "auto" not in shared:
+            shared["auto"] = Option.auto(3, doc="shared base")
+        return shared["auto"]
+
+    def f2(x):
+        return ("f2", x)
+
+    M.append(("AUTOSH1", ("attr", lambda: base() >> f), lambda q: Option(q, 3) >> f))
+    M.append(("AUTOSH2", ("attr", lambda: base() >> f2 >> f), lambda q: Option(q, 3) >> f2 >> f))
+    M.append(("AUTOSH3", ("attr", lambda: base() >> f2), lambda q: Option(q, 3) >> f2))
     # an automatic member piped through a step whose parameter is read from another option
     M.append(("AUTOSTEP", ("attr", lambda: Option.auto(3) >> _scale()), lambda q: Option(q, 3) >> _scale()))
     return M
@@ -368,6 +384,10 @@ def run_lookup(key, di, res, only=None):
                 if only is not None and (dom, oo) != only:
                     continue
                 w.reset_log()
+                first = observe(w, lambda: obj.evaluate(copy.deepcopy(oo)))
+                if first.ok:
+                    _scribble_value(first.value)  # what an evaluation returned belongs to the caller
+                w.reset_log()
                 got = observe(w, lambda: obj.evaluate(copy.deepcopy(oo)))
                 want = r.run(term, oo)
                 res["evaluations"] += 1
@@ -452,6 +472,22 @@ def run_set(res):
                         bad("result-aliases-input", f"mutating the result changed the input: {inp!r}")
                     new = probe
     return fails
+
+
+def _scribble_value(v, depth=0):
+    if depth > 5:
+        return
+    if isinstance(v, dict):
+        for x in list(v.values()):
+            _scribble_value(x, depth + 1)
+        v["__scribbled__"] = 1
+    elif isinstance(v, list):
+        for x in v:
+            _scribble_value(x, depth + 1)
+        v.append("__scribbled__")
+    elif isinstance(v, tuple):
+        for x in v:
+            _scribble_value(x, depth + 1)
 
 
 def _scribble(d):
